@@ -24,6 +24,7 @@ import (
 	"go/token"
 	"go/types"
 	"math/rand"
+	"reflect"
 	"sort"
 	"strings"
 
@@ -349,6 +350,29 @@ func posParseSweep() *posParse {
 }
 
 var _ = token.NoPos
+
+// astTypeFields: the ast.Expr (false) and *ast.FieldList (true) fields of the go/ast nodes typematch.parseExpr has clauses for,
+// read off go/ast itself by reflection -- what the Coq model's `ast_sig` (the children a clause has to descend into) is
+// compared with
+func astTypeFields() map[string][][2]string {
+	exprT := reflect.TypeOf((*ast.Expr)(nil)).Elem()
+	listT := reflect.TypeOf((*ast.FieldList)(nil))
+	out := map[string][][2]string{}
+	for _, n := range []interface{}{ast.StarExpr{}, ast.ArrayType{}, ast.MapType{}, ast.ChanType{}, ast.ParenExpr{}, ast.FuncType{}, ast.StructType{},
+		ast.InterfaceType{}, ast.Ident{}} {
+		t := reflect.TypeOf(n)
+		out[t.Name()] = [][2]string{}
+		for i := 0; i < t.NumField(); i++ {
+			switch t.Field(i).Type {
+			case exprT:
+				out[t.Name()] = append(out[t.Name()], [2]string{t.Field(i).Name, "false"})
+			case listT:
+				out[t.Name()] = append(out[t.Name()], [2]string{t.Field(i).Name, "true"})
+			}
+		}
+	}
+	return out
+}
 
 // posLoadScenario: the same position in groups that bind the name to different members of its family, through all three
 // type-pattern filters; every rule must report exactly the typed probes of that shape over the member its group binds
